@@ -86,8 +86,8 @@ def gen_case_pair(seed):
         elif c["family"] in ("gauss_int", "gauss_chain", "shaped") or src.pick([0, 0, 1]):
             break
         c = gen_case(src.pick(range(2**30)))
-    if c["family"] in ("delta",):
-        return c
+    if c["family"] in ("delta", "semiring"):
+        return c  # (a changed operator would leave the semiring, e.g. a negative factor under (min, mul))
     try:
         ast2 = deep_mutation(c["ast"], src)
     except Exception:  # noqa: BLE001
